@@ -221,7 +221,7 @@ DRIVERS = {"C09": ["c09", "c09blk"], "C01": ["c01", "c01s", "c01g"], "C02": ["c0
 
 
 # additional theorem modules (built and audited with the property): composed results living in their own files
-EXTRA_PROPS = {"C02": ["C02Lex", "C02Xlate", "C02Search", "C02Cover", "C02Finish"], "C14": ["C14Fmt", "C14Xlate"], "C09": ["C09Api", "C09Pred", "C09Blk"], "C18": ["C18More", "C18Xlate", "C18Cmn", "C18Xlate2", "C18Xlate3", "C18Xlate4", "C18Xlate5", "C18Xlate6", "C18Swap"], "C12": ["C12Round", "C12Prune", "C12PruneInt"], "C11": ["C11Build", "C11Cache", "C11Widths"], "C01": ["C01Xlate", "C01Later", "C01Refuse", "C01Hyp"], "C19": ["C19Xlate"], "C05": ["C05Names", "C05Repr", "C05Graph", "C05Surface", "C05Widths"], "C20": ["C20Xlate", "C20Iter"], "C15": ["C15Xlate", "C15Xlate2"], "C10": ["C10More", "C10Bridge", "C10Dict", "C10DictSim", "C10Xlate"], "C08": ["C08Static", "C08Query", "C08Empty"], "C07": ["C07Xlate", "C07Hist", "C07Ring", "C07Query"], "C06": ["C06Closed", "C06Xlate", "C06Xlate2", "C06Swap", "C06SwapMacro"], "C04": ["C04Json", "C04Xlate", "C04Tree", "C04Dead", "C04Wrap", "C04TreeFull", "C04Early"], "C03": ["C03Ret", "C03End", "C03Xlate", "C03Widths", "C03XlateFwd", "C03Fillers"], "C16": ["C16Xlate", "C16Load", "C16D2p", "C16Probe"], "C17": ["C17Fuel", "C17Xlate", "C17XlateTmat", "C17Flags"]}
+EXTRA_PROPS = {"C02": ["C02Lex", "C02Xlate", "C02Search", "C02Cover", "C02Finish", "C02Backoff"], "C14": ["C14Fmt", "C14Xlate"], "C09": ["C09Api", "C09Pred", "C09Blk"], "C18": ["C18More", "C18Xlate", "C18Cmn", "C18Xlate2", "C18Xlate3", "C18Xlate4", "C18Xlate5", "C18Xlate6", "C18Swap"], "C12": ["C12Round", "C12Prune", "C12PruneInt"], "C11": ["C11Build", "C11Cache", "C11Widths"], "C01": ["C01Xlate", "C01Later", "C01Refuse", "C01Hyp"], "C19": ["C19Xlate"], "C05": ["C05Names", "C05Repr", "C05Graph", "C05Surface", "C05Widths"], "C20": ["C20Xlate", "C20Iter"], "C15": ["C15Xlate", "C15Xlate2"], "C10": ["C10More", "C10Bridge", "C10Dict", "C10DictSim", "C10Xlate"], "C08": ["C08Static", "C08Query", "C08Empty"], "C07": ["C07Xlate", "C07Hist", "C07Ring", "C07Query"], "C06": ["C06Closed", "C06Xlate", "C06Xlate2", "C06Swap", "C06SwapMacro"], "C04": ["C04Json", "C04Xlate", "C04Tree", "C04Dead", "C04Wrap", "C04TreeFull", "C04Early"], "C03": ["C03Ret", "C03End", "C03Xlate", "C03Widths", "C03XlateFwd", "C03Fillers"], "C16": ["C16Xlate", "C16Load", "C16D2p", "C16Probe"], "C17": ["C17Fuel", "C17Xlate", "C17XlateTmat", "C17Flags", "C17Fds"]}
 
 
 def drivers_of(prop):
